@@ -1,11 +1,13 @@
 # C12: key generation is a fixed, in-range, deterministic function of the seed (DESIGN 6.12)
-from symex.checklib import Case, run_check
+import time
+from symex.checklib import Case, run_check, merge_evidence
 from symex import stubs_big, stubs_ecdsa, galg, stubs_hash
 
 GB = 'symex.setup_c:with_galg_bytes'
 
 def run(tier, seed):
     thorough = tier == 'thorough'
+    t0 = time.time()
     slens = list(range(0, 301)) if thorough else [0, 1, 31, 32, 33, 47, 48, 49, 64, 100, 255, 256, 257, 300]
     blens = set([32, 31, 30, 16, 2, 1, 0]) if thorough else set([32, 31, 1])
     cases = []
@@ -24,7 +26,7 @@ def run(tier, seed):
     for n in mlens:
         cases.append(Case('mapToFr_%d' % n, 'crypto', 'zzC12_mapToFr', [n], opts={'setup': GB}))
     cases.sort(key=lambda c: 0 if c.fn == 'zzC12_concurrent' else 1)      # (their counterexamples are the ones that replay natively)
-    return run_check('C12', cases, tier, seed, setup='symex.setup_c:with_c', replay_flags='-race',
+    rc = run_check('C12', cases, tier, seed, setup='symex.setup_c:with_c', replay_flags='-race', evidence_name='C12_main',
         functions=['crypto.GeneratePrivateKey', '(*crypto.blsBLS12381Algo).generatePrivateKey', 'crypto.mapToFr', 'C:map_bytes_to_Fr', 'C:Fr_from_be_bytes (chunking loop, limbs_from_be_bytes executed)',
                    '(*crypto.ecdsaAlgo).generatePrivateKey', 'crypto.goecdsaMapKey', 'crypto.goecdsaPrivateKey', '(*crypto.prKeyBLSBLS12381).PublicKey', '(*crypto.prKeyECDSA).PublicKey'],
         bounds={'seed lengths': '0..300' if thorough else str(slens), 'seed contents': 'every byte symbolic',
@@ -37,3 +39,16 @@ def run(tier, seed):
                      'minimal byte lengths of big integers restricted to the listed set (ECDSA cases)'],
         trusted=stubs_big.TRUSTED + stubs_ecdsa.TRUSTED + galg.TRUSTED[:2] + galg.TRUSTED[4:] + stubs_hash.TRUSTED[1:],
         explanation='bounded symbolic execution of the key-generation glue (go/ssa) through cgo into map_bytes_to_Fr (LLVM IR): the five HKDF arguments equal the documented ones (salt = SHA-256 of the ASCII string, IKM||00, info 00 30, L = 48; empty salt/info for ECDSA), the BLS key is OS2IP(okm) mod r (exact linear forms; Montgomery constants folded by the encoder), the ECDSA key is OS2IP(okm) mod (n-1) + 1, out-of-range seed lengths give invalid-input errors, regeneration and decoding give Equal keys and public keys, PublicKey() is cached')
+    # lazily computed public key under concurrent first calls: logical threads (every interleaving of the accesses to
+    # the cached-key field, sequentially consistent memory). Replayed natively WITHOUT the race detector: the
+    # unsynchronised publication of a complete key is a data race in Go's sense also on the unchanged code, which
+    # the property (values returned) does not speak about; what is required is that every call returns scalar*g2.
+    pc = [Case('pk_concurrent_%d' % k, 'crypto', 'zzC12_pk_concurrent', [k], opts={'setup': GB}) for k in (0, 1, 2)]
+    rc |= run_check('C12', pc, tier, seed, setup=GB, evidence_name='C12_pk',
+        functions=['(*crypto.prKeyBLSBLS12381).PublicKey', '(*crypto.prKeyBLSBLS12381).computePublicKey'],
+        bounds={'threads': 'two goroutines making the first PublicKey() call on one private key object (constructed, decoded, aggregated); every interleaving of the accesses to the cached-key field; sequentially consistent memory',
+                'outside': 'weak-memory effects of the unsynchronised publication (a Go data race also on the unchanged code: reported by the race detector, not a statement of C12); more than two goroutines'},
+        assumptions=['sequentially consistent memory'], trusted=galg.TRUSTED[:2],
+        explanation='logical threads in the symbolic executor: each access to the cached public-key field is a scheduling point; z3 decides for all scalars that both calls and later calls return the encoding of scalar*g2')
+    merge_evidence('C12', ['C12_main', 'C12_pk'], tier, seed, t0)
+    return 1 if rc else 0
